@@ -88,6 +88,10 @@ def _eval_pp(cond, kind, repo):
     if kind == "ifndef":
         return not _eval_pp(cond, "ifdef", repo)
     # #if expressions: small closed list
+    if "&&" in cond and "(" not in cond.replace("defined(", "").replace("defined (", ""):
+        return all(_eval_pp(c, "if", repo) for c in cond.split("&&"))
+    if re.fullmatch(r"_OPENMP\s*(>=|>)\s*\d+", cond):
+        return False  # baseline build: STIR_OPENMP off
     if cond in ("0", "1"):
         return cond == "1"
     m = re.fullmatch(r"STIR_VERSION\s*(<|>=|>|<=)\s*0*(\d+)", cond)
@@ -290,7 +294,7 @@ def extract_kernel(repo, spec):
         pr_on = "#pragma CPROVER check push\n" + pr_on
     pr_off = "#pragma CPROVER check pop\n" if pr_on else ""
     # contract clauses are specification text: no pointer checks are generated for them (the body keeps all checks)
-    spec_on = '#pragma CPROVER check push\n#pragma CPROVER check disable "pointer"\n'
+    spec_on = '#pragma CPROVER check push\n#pragma CPROVER check disable "pointer"\n#pragma CPROVER check disable "conversion"\n'
     spec_off = "\n#pragma CPROVER check pop"
     code = ("/* extracted from %s lines %d-%d sha256 %s */\n" + spec_on + "%s CONTRACT_%s K_CANARY_%s" + spec_off + "\n" + pr_on
             + "{\n%s\n%s\n%s\n}\n" + pr_off)
